@@ -35,7 +35,7 @@ func seeds() [][]byte {
 }
 
 type rec struct {
-	K                                      int
+	K                                 int
 	D, Z, M, Ek, Ct, Ss, BadCt, BadSs string
 }
 
